@@ -323,3 +323,94 @@ func init() {
 		return nil
 	})
 }
+
+// c15jit: inheritance of the jitter field, observed through the behaviour of the parsed stage.
+type c15jitRow struct {
+	Mode     string `json:"mode"`
+	DefJ     int    `json:"defj"`
+	StJ      int    `json:"stj"`
+	Eff      int    `json:"eff"`
+	Accepted bool   `json:"accepted"`
+	Panicked bool   `json:"panicked"`
+	Yaml     string `json:"yaml"`
+	Msg      string `json:"msg,omitempty"`
+}
+
+func c15jitObserve(mode string, defj, stj int) (row c15jitRow) {
+	row = c15jitRow{Mode: mode, DefJ: defj, StJ: stj}
+	var b strings.Builder
+	b.WriteString("scenario: scn\nlimits:\n  max-duration: 1m\n  concurrency: 4\n  max-iterations: 0\n  ignore-dropped: true\n")
+	b.WriteString("default:\n  distribution: none\n  duration: 20s\n")
+	if defj >= 0 {
+		b.WriteString(fmt.Sprintf("  jitter: %d\n", defj))
+	}
+	b.WriteString("stages:\n- mode: " + mode + "\n")
+	switch mode {
+	case "constant":
+		b.WriteString("  rate: 1000/1s\n")
+	case "ramp":
+		b.WriteString("  start-rate: 1000/1s\n  end-rate: 3000/1s\n")
+	case "staged":
+		b.WriteString("  stages: 0s:1000,20s:1000\n  iteration-frequency: 1s\n")
+	case "gaussian":
+		b.WriteString("  volume: 100000\n  repeat: 20s\n  iteration-frequency: 1s\n  peak: 10s\n  weights: \"\"\n  standard-deviation: 5s\n")
+	}
+	if stj >= 0 {
+		b.WriteString(fmt.Sprintf("  jitter: %d\n", stj))
+	}
+	row.Yaml = b.String()
+	defer func() {
+		if r := recover(); r != nil {
+			row.Panicked = true
+			row.Msg = fmt.Sprint(r)
+		}
+	}()
+	now := time.Date(2030, 1, 2, 3, 4, 0, 0, time.UTC)
+	rs, err := file.ParseConfigFile([]byte(row.Yaml), now)
+	if err != nil {
+		row.Msg = err.Error()
+		return row
+	}
+	row.Accepted = true
+	if len(rs.Stages) != 1 || rs.Stages[0].Rate == nil {
+		row.Msg = "no rate stage"
+		row.Accepted = false
+		return row
+	}
+	// evaluated repeatedly at ONE instant (the middle of the stage / window): without jitter the values agree to
+	// within the gaussian carry (1); with 40 % jitter they are hundreds apart
+	at := now.Add(10 * time.Second)
+	lo, hi := 1<<30, -1
+	for k := 0; k < 60; k++ {
+		v := rs.Stages[0].Rate(at)
+		if v < lo {
+			lo = v
+		}
+		if v > hi {
+			hi = v
+		}
+	}
+	if hi-lo > 2 {
+		row.Eff = 1
+	}
+	return row
+}
+
+func init() {
+	register("c15jit", func(c *ctx) error {
+		w, err := newNDJSON(filepath.Join(c.out, "c15jit.ndjson"))
+		if err != nil {
+			return err
+		}
+		defer w.close()
+		for _, mode := range []string{"constant", "ramp", "staged", "gaussian"} {
+			for _, defj := range []int{-1, 0, 40} {
+				for _, stj := range []int{-1, 0, 40} {
+					w.write(c15jitObserve(mode, defj, stj))
+				}
+			}
+		}
+		fmt.Println("c15jit observations:", w.n)
+		return nil
+	})
+}
